@@ -55,7 +55,18 @@ X32(k, f) == [id |-> "f32-" \o ToString(k) \o "-" \o f, kind |-> "render", f |->
               prog |-> << [t |-> "obj", e |-> [t |-> "filter", e |-> [t |-> "var", name |-> S0], name |-> f, args |-> IF f = "append" THEN <<[t |-> "lit", v |-> Str(<<>>)]>> ELSE <<>>]] >>,
               prog2 |-> << [t |-> "obj", e |-> [t |-> "var", name |-> S0]] >>, env |-> << <<S0, F32U[k]>> >>, repr |-> ("s" :> "float32")]
 EmitF32 == \A k \in 1..Len(F32U) : \A f \in {"append", "strip", "downcase"} : PrintT(ToJson(X32(k, f)))
-EmitCase == ((ri = 1 /\ call.name = "upcase") => EmitF32) /\ \A h \in 1..Len(Hints) :
+\* every ASCII white-space character (tab, line feed, vertical tab, form feed, carriage return, space) at the edges of a
+\* text, alone and inside a run of others: strip / lstrip / rstrip remove it, and nothing else
+WsChars == {9, 10, 11, 12, 13, 32}
+WsShapes(c) == << <<c, 97, c>>, <<32, c, 97, c, 32>>, <<c, 32, 97, 98, 32, c>>, <<c>>, <<97, c, 98>>, <<c, c, 97>>, <<97, c, c>> >>
+EmitWs == \A c \in WsChars : \A k \in 1..Len(WsShapes(c)) : \A f \in {"strip", "lstrip", "rstrip"} :
+  PrintT(ToJson([id |-> "ws-" \o ToString(c) \o "-" \o ToString(k) \o "-" \o f, kind |-> "render", f |-> f,
+                 prog |-> << [t |-> "text", s |-> <<91>>], [t |-> "obj", e |-> [t |-> "filter", e |-> [t |-> "var", name |-> S0], name |-> f, args |-> <<>>]],
+                             [t |-> "text", s |-> <<93>>] >>,
+                 env |-> << <<S0, Str(WsShapes(c)[k])>> >>]))
+WsLaw == \A c \in WsChars : \A k \in 1..Len(WsShapes(c)) :
+  LET t == WsShapes(c)[k] IN Strip(t) = LStrip(RStrip(t)) /\ (\A i \in 1..Len(Strip(t)) : Strip(t)[i] \in {97, 98} \/ (i > 1 /\ i < Len(Strip(t))))
+EmitCase == ((ri = 1 /\ call.name = "upcase") => EmitF32 /\ EmitWs /\ WsLaw) /\ \A h \in 1..Len(Hints) :
   PrintT(ToJson([id |-> "sr" \o ToString(h) \o IdStr, kind |-> "render", f |-> call.name, prog |-> Prog, env |-> << <<S0, v>> >>]
                 @@ (IF Hints[h] = "" THEN <<>> ELSE [repr |-> ("s" :> Hints[h])])))
 =============================================================================
